@@ -5,7 +5,7 @@ CONSTANTS
   OffsMod = 65536
   Kind = "uriparams"
   Atoms <- AtomsNames
-  MaxLen = 8
+  MaxLen = 6
   Cfgs <- CfgsOf
   Starts = {0, 3}
   FlagSet = {64}
